@@ -8,7 +8,7 @@
    stubs, MXCSR/x87 preservation, alloca. *)
 From Coq Require Import List ZArith Lia.
 From MirV Require Import Base.W64 C05.SysV C05.AbiImpl C05.AbiProofs C05.Conv C05.ConvProofs C06.VaList C06.VaProofs C06.Frame C06.FrameProofs
-  C06.Alloca C06.AllocaProofs C06.CtlState C06.CtlStateProofs C06.CodeFacts gen.C05Abi.
+  C06.Alloca C06.AllocaProofs C06.CtlState C06.CtlStateProofs C06.CodeFacts C06.SlotAddr C06.SlotAddrProofs gen.C05Abi.
 Import ListNotations.
 Local Open Scope Z_scope.
 
@@ -310,3 +310,31 @@ Theorem va_arg_ld_head_refuted_thm :
      <> skipn (length named) (fst (assign (named ++ tail))).
 Proof. eexists. eexists. exact va_ld_head_refuted. Qed.
 Print Assumptions va_arg_ld_head_refuted_thm.
+
+(* ---- round 3: the frame stays addressable while the function itself calls ----
+   machinize_call (placement of its frame-pointer forcing statements read off the checked tree) forces a
+   frame pointer for every call that has a stack-argument area, whether the area holds scalars, copied
+   by-value blocks or both *)
+Theorem call_with_stack_area_forces_fp : forall c, oc_wf c -> oc_area c <> 0 ->
+  call_forces gen_call_fp_end_rule gen_call_fp_blk_rule gen_call_fp_scalar_rule c = true.
+Proof. exact gen_call_forces. Qed.
+Print Assumptions call_with_stack_area_forces_fp.
+
+(* for every function (any features) and every body history of allocas and calls (any mix of register, stack-scalar
+   and stack-block arguments): at every point where a slot can be accessed -- between the events and inside the
+   sub rsp/add rsp window of a call -- a slot (spilled pseudo, value saved around the call) has the address it had
+   right after the prologue, with the frame-pointer decision the code makes *)
+Theorem frame_slots_addressable_across_calls : forall f evs rbp F off_fp off_sp,
+  Forall (fun e => match e with BCall c => oc_wf c | BAlloca _ => True end) evs ->
+  let k := keeps_fp gen_call_fp_end_rule gen_call_fp_blk_rule gen_call_fp_scalar_rule gen_alloca_keeps_fp f evs in
+  Forall (fun sp => body_slot_addr k rbp sp off_fp off_sp = body_slot_addr k rbp F off_fp off_sp) (sp_points F evs).
+Proof. exact body_slot_addr_stable_gen. Qed.
+Print Assumptions frame_slots_addressable_across_calls.
+
+(* forcing the frame pointer only where a scalar goes to the stack is not enough (a call passing one 24-byte block) *)
+Theorem scalar_only_fp_rule_refuted :
+  exists f evs F sp off,
+    keeps_fp false false true true f evs = false /\ In sp (sp_points F evs)
+    /\ body_slot_addr false 0 sp 0 off <> body_slot_addr false 0 F 0 off.
+Proof. exact scalar_only_rule_refuted_lem. Qed.
+Print Assumptions scalar_only_fp_rule_refuted.
